@@ -256,6 +256,22 @@ def _run_getitem(case):
     out = [Res("C35/OrdinalAxis.getitem/values", isinstance(res.values, tuple) and got == _norm(exp),
                f"{tag}: values {vals0}[{case['item']}] -> {got}, expected {_norm(exp)} (type {type(res.values).__name__})",
                len(exp) != len(vals0) or got != vals0)]
+    # the selected entries are the very objects of the value sequence (a tuple entry stays a tuple), and the sliced axis
+    # is the axis one would build from the selected values
+    same_types = len(res.values) == len(exp) and all(type(a) is type(b) for a, b in zip(res.values, exp))
+    out.append(Res("C35/OrdinalAxis.getitem/entry-types-kept", same_types,
+                   f"{tag}: entry types {[type(a).__name__ for a in res.values]} vs {[type(b).__name__ for b in exp]}", len(exp) > 0))
+    try:
+        rebuilt = type(ax)(**{**kw, "values": tuple(exp)})
+        if case.get("values_kind") == "ndarray2d":
+            # `==` on axes whose entries are arrays is the recorded finding of axis_to_dict/roundtrip-eq: compare field-wise
+            eq = _fields(res) == _fields(rebuilt)
+        else:
+            eq = bool(res == rebuilt)
+        det = f"{tag}: ax[item] == {type(ax).__name__}(values=values[item]) is {eq}"
+    except Exception as e:  # noqa: BLE001
+        eq, det = False, f"{tag}: comparing ax[item] with the axis rebuilt from values[item] raised {type(e).__name__}: {e}"
+    out.append(Res("C35/OrdinalAxis.getitem/equals-axis-of-selected-values", eq, det, len(exp) > 0))
     ok = type(res) is type(ax) and _fields(res, skip=("values",)) == _fields(ax, skip=("values",))
     out.append(Res("C35/OrdinalAxis.getitem/other-fields-kept", ok,
                    f"{tag}: got {_fields(res, skip=('values',))} from {_fields(ax, skip=('values',))}", case["variant"] != 0))
